@@ -116,6 +116,11 @@ def contract(file, qualname, props=()):
 # views handed to clause lambdas
 
 
+def initial_array(eng, field):
+    ty = eng.field_type(field)
+    return z3.Const('heap0!' + field, z3.ArraySort(RefSort, ty.sort()))
+
+
 class ObjView:
     def __init__(self, it, ref, heap):
         object.__setattr__(self, '_it', it)
@@ -128,15 +133,18 @@ class ObjView:
         if name == 'cls':
             arr = self._heap.get('__class__')
             if arr is None:
-                arr = it.ctx.field_array('__class__')
+                arr = initial_array(eng, '__class__')
             return z3.Select(arr, self.ref)
         if name == 'tag':
-            return eng.tag_term(z3.Select(self._heap.get('__class__', it.ctx.field_array('__class__')), self.ref))
+            arr = self._heap.get('__class__')
+            if arr is None:
+                arr = initial_array(eng, '__class__')
+            return eng.tag_term(z3.Select(arr, self.ref))
         ty = eng.field_type(name)
         arr = self._heap.get(name)
         if arr is None:
-            arr = it.ctx.field_array(name)
-            self._heap.setdefault(name, arr)
+            # never touched when this heap snapshot was taken: the initial array
+            arr = initial_array(eng, name)
         t = z3.Select(arr, self.ref)
         if isinstance(ty, Obj):
             return ObjView(it, t, self._heap)
@@ -189,10 +197,9 @@ def view(it, v, heap):
     if isinstance(v, VTuple):
         return tuple(view(it, x, heap) for x in v.items)
     if isinstance(v, VFieldCell):
-        ty = it.engine.field_type(v.field)
         arr = heap.get(v.field)
         if arr is None:
-            arr = it.ctx.field_array(v.field)
+            arr = initial_array(it.engine, v.field)
         return z3.Select(arr, v.ref.t)
     if isinstance(v, VCell):
         c = v.content
